@@ -629,6 +629,86 @@ class C05(Check):
                     "harness/common/semgen.py converters (object <-> JSON)",
                     "mrs.is_well_formed (property C07) delimits the input space of the oracle's clauses"]
 
+    # ---- pins: constants of the anchored code that the hand-written model mirrors
+    def tables(self):
+        """Read from the live objects on every run: module-level role / sort / relation constants, the variable
+        regex, `_UNTENSED_VALUES`, default arguments, and the string / number / keyword-name constants of the code
+        objects (nested code objects included) of every function the model mirrors.  Dropped: None/booleans,
+        and every string containing white space (docstrings, warning and exception message texts)."""
+        import types
+
+        from delphin import util
+        from delphin.eds import _operations as eops
+        from delphin.mrs import _mrs
+        from .common import tables as T
+        lit = T.lean_strlit
+
+        def consts(fn):
+            out = []
+
+            def walk(code):
+                for c in code.co_consts:
+                    if isinstance(c, types.CodeType):
+                        walk(c)
+                    elif isinstance(c, bool) or c is None:
+                        continue
+                    elif isinstance(c, str):
+                        if not any(ch.isspace() for ch in c):
+                            out.append(c)
+                    elif isinstance(c, (int, float)):
+                        out.append(str(c))
+                    elif isinstance(c, frozenset):
+                        out.append("{" + ",".join(sorted(map(str, c))) + "}")
+                    elif isinstance(c, tuple):
+                        out.append("(" + ",".join(map(str, c)) + ")")
+                    else:
+                        out.append(repr(c))
+            walk(fn.__code__)
+            return out
+
+        def defaults(fn):
+            return [repr(d) for d in (fn.__defaults__ or ())] + \
+                   ["%s=%r" % kv for kv in sorted((fn.__kwdefaults__ or {}).items())]
+
+        def slist(name, xs):
+            return "def %s : List String := [%s]" % (name, ", ".join(lit(x) for x in xs))
+
+        def sdef(name, x):
+            return "def %s : String := %s" % (name, lit(x))
+        fns = [
+            ("c05FromMrs", eops.from_mrs), ("c05GetTop", eops._mrs_get_top),
+            ("c05BasicDeps", eops._mrs_args_to_basic_deps), ("c05ToNodes", eops._mrs_to_nodes),
+            ("c05FindPredicateModifiers", eops.find_predicate_modifiers),
+            ("c05MakeIdsUnique", eops.make_ids_unique),
+            ("c05EpInit", _mrs.EP.__init__), ("c05EpIsQuantifier", _mrs.EP.is_quantifier),
+            ("c05UniquifyIds", _mrs._uniquify_ids), ("c05QuantificationPairs", _mrs.MRS.quantification_pairs),
+            ("c05MrsArguments", _mrs.MRS.arguments), ("c05MrsProperties", _mrs.MRS.properties),
+            ("c05MrsScopes", _mrs.MRS.scopes), ("c05MrsScopalArguments", _mrs.MRS.scopal_arguments),
+            ("c05Representatives", scope.representatives),
+            ("c05RepresentativePriority", scope._make_representative_priority),
+            ("c05Descendants", scope._descendants), ("c05ScopeDescendants", scope.descendants),
+            ("c05ConnectedComponents", util._connected_components), ("c05Bfs", util._bfs),
+            ("c05VariableSplit", variable.split), ("c05VariableType", variable.type),
+            ("c05NodeInit", eds.Node.__init__),
+        ]
+        lines = [
+            sdef("c05BoundVariableRole", eds.BOUND_VARIABLE_ROLE),
+            sdef("c05PredicateModifierRole", eds.PREDICATE_MODIFIER_ROLE),
+            sdef("c05IntrinsicRole", _mrs.INTRINSIC_ROLE), sdef("c05RestrictionRole", _mrs.RESTRICTION_ROLE),
+            sdef("c05BodyRole", _mrs.BODY_ROLE), sdef("c05ConstantRole", _mrs.CONSTANT_ROLE),
+            sdef("c05QuantifierType", _mrs._QUANTIFIER_TYPE),
+            sdef("c05Unspecific", variable.UNSPECIFIC),
+            slist("c05VariableSorts", [variable.UNSPECIFIC, variable.INDIVIDUAL, variable.INSTANCE_OR_HANDLE,
+                                       variable.EVENTUALITY, variable.INSTANCE, variable.HANDLE]),
+            slist("c05VariableRe", [variable._variable_re.pattern, str(variable._variable_re.flags)]),
+            slist("c05ScopeRelations", [scope.LEQ, scope.LHEQ, scope.OUTSCOPES, scope.QEQ]),
+            slist("c05UntensedValues", sorted(scope._UNTENSED_VALUES)),
+        ]
+        for name, fn in fns:
+            lines.append(slist(name + "Consts", consts(fn)))
+            lines.append(slist(name + "Defaults", defaults(fn)))
+        return lines
+
     # ---- generators
     def cases(self, rng, tier, n):
         small = list(semgen.enum_small_mrs(2))
